@@ -1145,16 +1145,29 @@ func (g *gen) genBigList(n int) {
 	}
 	for c := 0; c < n; c++ {
 		sh := shapes[g.r.Intn(len(shapes))]
-		if g.chance(0.12) {
+		if c%8 == 0 {
 			// one element as wide as a length-prefixed value can be: 65533..65535 bytes, i.e. a width of 65535..65537
-			// (a cursor that keeps widths in 16 bits stops advancing exactly there)
-			ln := []int{65533, 65534, 65535}[g.r.Intn(3)]
-			if body := g.bigStringBody(sh.kind, ln); body != nil {
+			// (a cursor that keeps widths in 16 bits stops advancing exactly there). Enumerated, the list types first.
+			type wide struct {
+				kind string
+				ln   int
+			}
+			var seq []wide
+			for _, pair := range [][]string{{"Unsubscribe", "Subscribe"}, {"Publish", "Connect"}, {"Disconnect", "Auth"}, {"ConnAck", "PubAck"},
+				{"PubRec", "PubRel"}, {"PubComp", "SubAck"}, {"UnsubAck"}} {
+				for _, ln := range []int{65534, 65535, 65533} {
+					for _, kind := range pair {
+						seq = append(seq, wide{kind, ln})
+					}
+				}
+			}
+			kind, ln := seq[(c/8)%len(seq)].kind, seq[(c/8)%len(seq)].ln
+			if body := g.bigStringBody(kind, ln); body != nil {
 				g.emit("RESET")
-				g.emit("NOTE case=biglist kind=%s list=wide-element count=%d cut=0", sh.kind, ln)
-				g.emit("NEW p %s", sh.kind)
+				g.emit("NOTE case=biglist kind=%s list=wide-element count=%d cut=0", kind, ln)
+				g.emit("NEW p %s", kind)
 				g.emit("DEC p %s", hxd(body))
-				g.emit("RD x %s sched=- eofwd=0 fail=eof calls=1", hxd(reframe(sh.first, body)))
+				g.emit("RD x %s sched=- eofwd=0 fail=eof calls=1", hxd(reframe(firstOfKind[kind], body)))
 				continue
 			}
 		}
